@@ -16,6 +16,7 @@ import SpiceEv.Cmd.ScheduleGen
 import SpiceEv.Cmd.Battery
 import SpiceEv.Cmd.Strategies
 import SpiceEv.Cmd.RuleSpec
+import SpiceEv.Cmd.StratRun
 import SpiceEv.Cmd.Distributed
 import SpiceEv.Cmd.StratDistributed
 import SpiceEv.Cmd.StratDistributedRun
@@ -25,6 +26,7 @@ import SpiceEv.Cmd.StratFlexWindow
 import SpiceEv.Cmd.StratSchedule
 import SpiceEv.Cmd.StratPeakLoadWindow
 import SpiceEv.Cmd.StratBalancedMarket
+import SpiceEv.Cmd.ScenarioCtor
 open SpiceEv
 
 def allHandlers : List (String × Handler) :=
@@ -37,6 +39,7 @@ def allHandlers : List (String × Handler) :=
   ++ Cmd.Events.handlers
   ++ Cmd.Strategies.handlers
   ++ Cmd.RuleSpec.handlers
+  ++ Cmd.StratRun.handlers
   ++ Cmd.Distributed.handlers
   ++ Cmd.StratDistributed.handlers
   ++ Cmd.StratDistributedRun.handlers
@@ -50,6 +53,7 @@ def allHandlers : List (String × Handler) :=
   ++ Cmd.Costs.handlers
   ++ Cmd.ScheduleGen.handlers
   ++ Cmd.Battery.handlers
+  ++ Cmd.ScenarioCtor.handlers
 
 def handle (line : String) : String :=
   match (line.splitOn " ").filter (· ≠ "") with
